@@ -213,6 +213,41 @@ def check(case) -> Outcome:
                     return fail("identify(atomic Q[T]):" + bad.pop("kind"), q_t=q_atomic.to_y0(), expression=r2.to_y0()[:2000], model=scm.params(), **bad)
             if outside and 0 < len(c) < len(t):
                 labels.add("atomic-conditioned-proper-subset")
+    # (2c) the same question with Q[T] written as ONE fraction: every Lemma-1 factor P(v_i | v^(i-1)) as
+    #      P(v^(i)) / P(v^(i-1)), numerators and denominators collected
+    from y0.dsl import Fraction, Product
+
+    nums, dens = [], []
+    for x in t:
+        i = topo.index(x)
+        nums.append(P([V(n) for n in topo[: i + 1]]))
+        if i:
+            dens.append(P([V(n) for n in topo[:i]]))
+    if dens:
+        q_frac = Fraction(Product.safe(nums), Product.safe(dens))
+        labels.add("fraction-Q[T]")
+        try:
+            with ReentryGuard(tian_id, "identify_district_variables", _key):
+                r3 = tian_id.identify_district_variables(input_variables=frozenset(V(x) for x in c), input_district=frozenset(V(x) for x in t), district_probability=q_frac, graph=graph, topo=vt)
+        except StepBudgetExceeded as e:
+            return fail("identify_district_variables-does-not-terminate", q_t=q_frac.to_y0(), exc=str(e))
+        except Exception as e:
+            return fail("identify_district_variables-raised", q_t=q_frac.to_y0(), exc=repr(e)[:300])
+        if r3 is not None:
+            if not isinstance(r3, Expression):
+                return fail("non-expression-returned", q_t=q_frac.to_y0(), type=str(type(r3)))
+            for k, scm in enumerate(scms):
+                bad = _compare(r3, scm, c)
+                if bad:
+                    return fail("identify(fraction Q[T]):" + bad.pop("kind"), q_t=q_frac.to_y0()[:800], expression=r3.to_y0()[:2000], model=scm.params(), **bad)
+        try:
+            q_a3 = tian_id.compute_ancestral_set_q_value(ancestral_set=frozenset(V(x) for x in a_set), subgraph_variables=frozenset(V(x) for x in t), subgraph_probability=q_frac, graph_topo=vt)
+        except Exception as e:
+            return fail("compute_ancestral_set_q_value-raised", q_t=q_frac.to_y0(), exc=repr(e)[:300])
+        for k, scm in enumerate(scms):
+            bad = _compare(q_a3, scm, a_set)
+            if bad:
+                return fail("lemma3(fraction Q[T]):" + bad.pop("kind"), ancestral_set=a_set, expression=q_a3.to_y0()[:1500], model=scm.params(), **bad)
     if r is None:
         labels.add("fail")
         if ref:
